@@ -143,6 +143,8 @@ func exprs() []poolExpr {
 var templates = []string{
 	".a + %d", "\"v\\(.a) n\\(%d)\"", "[.b[] | . + %d]", "{\"k%d\": .a}", ".c.x |= . + \"%d\"", "sort_by(.n + %d)", "\"\\(.c.x) \\(.b | length + %d)\"",
 	".[] as $i ireduce (%d; . += $i)", "with(.c; .n%d = %d)", ".people | map(.age + %d)", "%d | . += 1", ".a as $v%d | $v%d", "to_json | from_json | .a == %d", "[.. | select(tag == \"!!int\") | . * %d]",
+	// an expression spelled in a literal that interpolates the document: every document, its own expression
+	"eval(\"\\\"\\(.a)-%d\\\"\")", "[.. | select(tag == \"!!str\")] | .[] |= eval(\"\\\"\\(.)-%d\\\"\")",
 }
 
 func exprText(st Step) string {
